@@ -524,7 +524,9 @@ def chk_dist(inp, c):
         c.cell("all-rows-zero")
 
     # ---- drive the real method
-    est = c.call(gen.make_estimator, dreye, inp, _where="ReceptorEstimator+register_system")
+    est = inp.get("_live_estimator")      # set by the re-registration clause: an estimator with a history
+    if est is None:
+        est = c.call(gen.make_estimator, dreye, inp, _where="ReceptorEstimator+register_system")
     Barg = _layout(B, inp["layout"])
     keep = Barg.copy()
     kw = {}
@@ -680,5 +682,30 @@ def chk_dist(inp, c):
     c.nontrivial(bool(sat.any()) and (state == "needs-scaling" or has_zero or explicit or not rel or m == 2))
 
 
+def gen_dist_rereg(rng, i):
+    s = _gen_dist(rng, i, DIST_MODES)
+    s["rereg_seed"] = int(rng.integers(0, 2 ** 31 - 1))
+    return s
+
+
+def chk_dist_rereg(inp, c):
+    """The chromatic gamut used is that of the CURRENTLY registered values: scale once, change a registration on the same
+    estimator, scale again and judge the second answer against the new system."""
+    est = c.call(gen.make_estimator, dreye, inp, _where="ReceptorEstimator+register_system")
+    kw = {} if inp["neutral"] is None else {"neutral_point": np.array(inp["neutral"], dtype=float)}
+    c.try_call(est.gamut_dist_scaling, np.asarray(inp["B"]).copy(), relative=inp["relative"], **kw)
+    c.try_call(est.gamut_l1_scaling, np.asarray(inp["B"]).astype(float) + 1.0, relative=inp["relative"])
+    rr = np.random.default_rng(inp["rereg_seed"])
+    ok, res = c.try_call(gen.reregister, rr, est, inp, None, False)
+    if not ok:
+        c.fail(f"registration call raised {type(res).__name__}: {str(res)[:100]}", mechanism="rereg-raised")
+    op, t = res
+    c.cell("rereg=" + op)
+    t = dict(t)
+    t["_live_estimator"] = est
+    chk_dist(t, c)
+
+
+M.add("chromatic_scaling_after_reregistration", gen_dist_rereg, chk_dist_rereg, weight=1, min_held=40)
 M.add("chromatic_scaling", gen_dist, chk_dist, weight=3, min_held=150)
 M.add("chromatic_already_inside", gen_dist_inside, chk_dist, weight=1, min_held=50)
